@@ -8,6 +8,8 @@
 //           | dint  <lo*4> <hi*4> <clo*2> <chi*2> <dt> <min> <max>      state (x,y,vx,vy)   control (ax,ay)
 //           | ode   <lo*2> <hi*2> <clo*2> <chi*2> <dt> <min> <max>      the unicycle through ODEBasicSolver (RK4, 4 sub-steps);
 //                                                                        harness + Python oracle only (no Lean twin)
+//           | dpoint <lo*2> <hi*2> <clo*2> <chi*2> <dt> <min> <max>     state (x,y); DiscreteControlSpace [clo[0], chi[0]] (integers;
+//                                                                        clo[1] = chi[1] = 0), control (value, 0): one of eight headings
 //   GOAL  ::= goal (pos | pred | l1) <reals> <thr>     pos: sampleable region, L2 position distance; pred: plain ob::Goal
 //                                                    predicate (no distance); l1: ob::GoalRegion with |dx|+|dy| (not sampleable)
 //   ENV   ::= boxes 2 <k> (<lo*2> <hi*2>)*k                             (planning.h)
@@ -28,7 +30,11 @@
 //   est  SYS ENV starts <n> (<reals>)*n GOAL cell=<bits> k=<n> att=<n> bias=<bits> seed=<n> iters=<n>   -> result + `estplay …`
 //   kpiece SYS ENV starts <n> (<reals>)*n GOAL cell=<bits> nclose=<n> bias=<bits> seed=<n> iters=<n>   -> result + `kpieceplay …`
 //   pdst SYS ENV starts <n> (<reals>)*n GOAL k=<n> bias=<bits> seed=<n> iters=<n> [resume=<n> clearsol=<0|1>]   -> result(s) + `pdstplay …`
-//   hist <planner> SYS ENV starts <n> (<reals>)*n GOAL k=<n> bias=<bits> seed=<n> ops (solve <budget> | clear | clearsol)*
+//   hist <planner> SYS ENV starts <n> (<reals>)*n GOAL k=<n> bias=<bits> seed=<n> [steer=<0|1>] [nest=<n>] ops
+//        (solve <budget> | clear | clearsol | cb <lo0> <lo1> <hi0> <hi1> | mm <min> <max> | dt <bits> | setup)*      (see opHist)
+//   sampler (real <dim> <lo*dim> <hi*dim> | disc <lo> <hi>) lseed=<n> ops (B <bounds> | S | N | K <a> <b> | R <lseed>)*
+//   dsampler SYS ENV k=<n> lseed=<n> ops (B <lo0> <lo1> <hi0> <hi1> | M <min> <max> | D <dt> | R <lseed> | T <src> <dest>)*
+//   nest SYS ENV hook=<v|p> at=<k> CALL CALL      CALL ::= (pwv | prop) FORM <steps> st <reals> ct <reals>           (see opNest)
 //   plan <planner> SYS ENV starts <n> (<reals>)*n GOAL k=<n> steer=<0|1> bias=<bits> seed=<n> budget=<n>
 //
 // doubles are decimal u64 bit patterns.  The three systems are written here once (SysPropagator) and
